@@ -35,6 +35,7 @@ CONSTANTS MaxLen,      \* paths of length 1..MaxLen
           LonStep8,    \* shift lattice: longitudes 0, LonStep8, ... < 2880 (eighths of a degree)
           ShiftSet8,   \* |shift| values in eighths of a degree (both signs are tried)
           FixedGE,     \* TRUE: the repaired `>= 360` fold
+          ScaleSizes,  \* lengths of the large arrays (at and across the block sizes 2^18, 2^19, 2^20)
           DoExport
 
 VARIABLES kind, path, x, y, z
@@ -130,7 +131,18 @@ AnchorSeq(s) == SetToSortSeq(Anchors(s), ALess)
 PickAnchor == kind = "start" /\ kind' = "anchor" /\ UNCHANGED <<path, z>>
               /\ x' \in 1..6 /\ y' \in 1..Cardinality(Anchors(x'))
 
-Next == Start \/ Step \/ PickFrame \/ PickOpt \/ PickGC1 \/ PickRS1 \/ PickShift \/ PickCube \/ PickAnchor
+\* ---- scale law on a small scope: x = length of the point list, y = length of the tiled array, z = block size ----
+PickScale == kind = "start" /\ kind' = "scale" /\ UNCHANGED path /\ x' \in 1..4 /\ y' \in 0..9 /\ z' \in 1..4
+Tok(e) == <<"f", e>>
+ScaleTheorems == kind = "scale" =>
+    LET base == [i \in 1..x |-> i * 7]  big == TileSeq(base, y) IN
+    /\ Len(big) = y
+    /\ MapSeq(Tok, big) = TileSeq(MapSeq(Tok, base), y)                                    \* the law used for the large arrays
+    /\ \A k \in 0..y : MapSeq(Tok, SubSeq(big, 1, k) \o SubSeq(big, k + 1, y)) = MapSeq(Tok, SubSeq(big, 1, k)) \o MapSeq(Tok, SubSeq(big, k + 1, y))
+    /\ BlockMap(Tok, big, z) = MapSeq(Tok, big)                                            \* a block loop is the same map
+    /\ \A n \in ScaleSizes : n > 1000 /\ n < 2000000
+
+Next == Start \/ Step \/ PickFrame \/ PickOpt \/ PickScale \/ PickGC1 \/ PickRS1 \/ PickShift \/ PickCube \/ PickAnchor
 NextExport == Start \/ Step \/ PickFrame \/ PickOpt \/ PickGC1 \/ PickRS1 \/ PickCube \/ PickAnchor
 Spec == Init /\ [][Next]_vars
 
@@ -235,6 +247,7 @@ Export == DoExport =>
     /\ kind = "start" =>
           /\ PrintT(<<"SEL", ToJson([sels |-> [s \in 1..17 |-> SelInfo(s)], rottol9 |-> RotTol9, anchortol9 |-> AnchorTol9,
                                      unittol52 |-> UnitTol52, invcands |-> InvCands, f4tol9 |-> F4Tol9,
+                                     scalesizes |-> SetToSortSeq(ScaleSizes, LAMBDA a, b : a < b), scaletol9 |-> ScaleTol9,
                                      rottolx |-> [j \in DOMAIN RepSeq |-> RotTol9x(RepSeq[j])], reps |-> RepSeq, dtypes |-> DTypeSeq,
                                      xyztol |-> [i \in DOMAIN DTypeSeq |-> XyzTol9(DTypeSeq[i])]])>>)
           /\ PrintT(<<"GCPTS", ToJson([pts |-> G])>>) /\ PrintT(<<"RSPTS", ToJson([pts |-> S])>>)
